@@ -92,6 +92,24 @@ def run(ctx, rep):
                         a2 = util.addr_class(mod, g, ref)
                         return a2['kind'] == 'call' and a2['inst'].callee == 'nsync_waiter_new_' and not a2['path']
                     own = bool(sites) and all(from_new(g, i.ops[k]) for g, i in sites)
+                if not own and ac['kind'] == 'arg':
+                    # the dequeue function of the cv waitable (nsync_wait_n's record, not a pooled waiter): "was I still queued?" is decided by
+                    # reading nw->waiting INSIDE the cv spinlock - a read made before taking it can be overtaken by a signaller, whose wake-up is
+                    # then consumed (the record is gone from the queue) but reported as "still queued", i.e. as a timeout
+                    from ..cfg import cfg_of as _cfg
+                    gs = [n for n in (_norm_cmp(fn, cc, s) for cc, s in _guards(fn, c)) if n]
+                    wl = None
+                    for p_, a_, b_ in gs:
+                        la = fn.imap.get(a_) if isinstance(a_, str) else None
+                        if p_ == 'ne' and la is not None and la.op == 'load' and IR.is_int(b_) and IR.ival(b_) == 0 \
+                                and util.last_field(util.addr_class(mod, fn, la.ops[0])) == 'nsync_waiter_s.waiting':
+                            wl = la
+                    acq = [j for j in fn.real_insts() if j.op == 'call' and j.callee == 'nsync_spin_test_and_set_']
+                    ok = wl is not None and any(_cfg(fn).inst_dominates(j, wl) for j in acq)
+                    rep.instance('C04.R2', 'removal of a wait_n record at %s: guarded by waiting != 0 read under the cv spinlock: %s' % (c.where(), ok)); rep.oblig('C04.R2', ok)
+                    if not ok:
+                        rep.violate(Violation('C04.R2', c.where(), '%s removes the record from the cv queue %s: a signal that picked this record in between is consumed but the call reports the record as still queued - nsync_wait_n returns a timeout and no other waiter gets the signal'
+                                              % (fn.name, 'without testing nw->waiting' if wl is None else 'on a test of nw->waiting made before the cv spinlock was taken'), site='%s/stale-dequeue-test' % fn.name))
                 if own:
                     gs = [n for n in (_norm_cmp(fn, cc, s) for cc, s in _guards(fn, c)) if n]
                     def fld(ref):
@@ -113,6 +131,8 @@ def run(ctx, rep):
     rep.rule('C04.R6', 'nsync_wait_n reports a consumed wake-up: its result is decided by the dequeue calls, not by an earlier poll')
     check_dequeue_result(mod, rep, 'C04.R6')
     wakeshape.check_wake_loops(mod, rep, 'C04.R3', only_files=('cv.c',))
+    from . import C13 as _C13
+    _C13.check_dequeuers(ctx, mod, eng, runs, rep, rids=('C04.R7', None))
     from . import C13
     # R5 reuses the C13 rule on a sub-report
     class Sub:
